@@ -15,6 +15,7 @@ import (
 	"time"
 
 	"github.com/nextdns/nextdns/resolver"
+	"github.com/nextdns/nextdns/resolver/endpoint"
 	"github.com/nextdns/nextdns/resolver/query"
 )
 
@@ -285,12 +286,25 @@ func execHistory(f []string, srv *udpSrv) (string, bool) {
 	bufLen, e1 := strconv.Atoi(f[2])
 	maxAge, e2 := strconv.Atoi(f[3])
 	maxTTL, e3 := strconv.Atoi(f[4])
-	if e1 != nil || e2 != nil || e3 != nil || bufLen < 3 || (f[1] != "0" && f[1] != "1") {
+	if e1 != nil || e2 != nil || e3 != nil || bufLen < 3 || (f[1] != "0" && f[1] != "1" && f[1] != "2") {
 		return "bad-op", true
 	}
 	dns := &resolver.DNS{}
 	cache := newVCache()
-	if f[1] == "1" {
+	// "2": cache on, and the single queries (D, N) go the whole way: DNS.Resolve -> endpoint manager -> the resolver of the
+	// transport the manager currently stands on (DoH, or the plain-DNS fallback)
+	viaMgr := f[1] == "2"
+	mgrFor := func(e endpoint.Endpoint) *endpoint.Manager {
+		return &endpoint.Manager{
+			Providers:      []endpoint.Provider{endpoint.StaticProvider([]endpoint.Endpoint{e})},
+			InitEndpoint:   e,
+			ErrorThreshold: 1 << 30,
+			EndpointTester: func(endpoint.Endpoint) endpoint.Tester {
+				return func(ctx context.Context, testDomain string) error { return nil }
+			},
+		}
+	}
+	if f[1] != "0" {
 		dns.DOH.Cache = cache
 		dns.DNS53.Cache = cache
 	}
@@ -569,6 +583,13 @@ func execHistory(f []string, srv *udpSrv) (string, bool) {
 							res.pnc = x
 						}
 					}()
+					if viaMgr {
+						ep := &endpoint.DOHEndpoint{Hostname: "doh.verif.test"}
+						ep.VerifRawRoundTripper(rt)
+						dns.Manager = mgrFor(ep)
+						res.n, res.i, res.err = dns.Resolve(context.Background(), q, buf)
+						return
+					}
 					res.n, res.i, res.err = dns.VerifCacheDOH(context.Background(), q, buf, rt)
 				}()
 				if rt.log != "" {
@@ -605,6 +626,11 @@ func execHistory(f []string, srv *udpSrv) (string, bool) {
 							res.pnc = x
 						}
 					}()
+					if viaMgr {
+						dns.Manager = mgrFor(&endpoint.DNSEndpoint{Addr: addr})
+						res.n, res.i, res.err = dns.Resolve(ctx, q, buf)
+						return
+					}
 					res.n, res.i, res.err = dns.VerifCacheDNS53(ctx, q, buf, addr)
 				}()
 				cancel()
@@ -624,7 +650,7 @@ func execHistory(f []string, srv *udpSrv) (string, bool) {
 				}
 				if len(got) > 0 {
 					up = "N:" + hx(got[0])
-				} else if g[2] == "X" && res.err != nil && strings.HasPrefix(res.err.Error(), "dial:") {
+				} else if g[2] == "X" && res.err != nil && strings.HasPrefix(strings.TrimPrefix(res.err.Error(), "dns resolve: "), "dial:") {
 					up = "N:dial"
 				}
 			}
@@ -1095,7 +1121,12 @@ func (g *cacheGen) history() string {
 			c.Stat("op:evict-all")
 		}
 	}
-	return fmt.Sprintf("cache %s %d %d %d %s", b01(cacheOn), g.bufLen, maxAge, maxTTL, strings.Join(ops, " "))
+	on := b01(cacheOn)
+	if cacheOn && r.Chance(35) {
+		on = "2" // through DNS.Resolve and the endpoint manager, switching between DoH and the plain-DNS fallback
+		c.Stat("mode:via-manager")
+	}
+	return fmt.Sprintf("cache %s %d %d %d %s", on, g.bufLen, maxAge, maxTTL, strings.Join(ops, " "))
 }
 
 // newCacheRng: NewRng(seed) starts the splitmix64 counter at seed*gamma, so the stream of seed s+k is
